@@ -652,12 +652,12 @@ def selftest():
 
 
 FAMILIES = [
-    Family("pandas_models", evaluate, strategy=lambda: G.strategy("pandas"), n_quick=120, n_thorough=4000,
+    Family("pandas_models", evaluate, strategy=lambda: G.strategy("pandas"), n_quick=240, n_thorough=4000,
            shards_quick=6, shards_thorough=12,
            required_labels=["verdict=accept", "verdict=reject", "override-field", "override-method", "alias",
                             "regex-field", "config-extras", "diamond", "method:parser", "optional",
                             "avoids-known-defect-features"]),
-    Family("polars_models", evaluate, strategy=lambda: G.strategy("polars"), n_quick=120, n_thorough=4000,
+    Family("polars_models", evaluate, strategy=lambda: G.strategy("polars"), n_quick=240, n_thorough=4000,
            shards_quick=2, shards_thorough=4,
            required_labels=["verdict=accept", "verdict=reject", "override-field", "override-method", "alias",
                             "diamond"]),
